@@ -6,3 +6,6 @@ open IrVerif.Kernel
 #print axioms C01_step_any
 #print axioms C01_history
 #print axioms C01_history_from
+#print axioms C01_node_sequence_refined
+#print axioms C01_node_sequence_history
+#print axioms C01_graph_calls_use_seq
